@@ -5,7 +5,8 @@
    mechanism-free specification; Model/HttpPool.v the HTTP layer with its backend connection pool.
    [P] is the payload type (what a route leads to: a *RouteConfig, a *Listener). *)
 From FRP Require Import Model.Router Model.RouteSpec Model.HttpPool
-  Proofs.RouterProofs Proofs.RouteSpecProofs Proofs.RouteClauses Proofs.HttpPoolProofs.
+  Proofs.RouterProofs Proofs.RouteSpecProofs Proofs.RouteClauses Proofs.HttpPoolProofs
+  Corr.C06 Proofs.C06MonitorProofs.
 Open Scope Z_scope.
 
 (* router_inv: after every history every per-(domain,user) slice is strictly descending by location
@@ -181,23 +182,47 @@ Theorem C06_readd_gets_new_owner : forall (P : Type) (hist : list (rt_op P)) d l
 Proof. exact (@rc_readd_gets_new_owner). Qed.
 Print Assumptions C06_readd_gets_new_owner.
 
+(* the monitor of Corr/C06.v (specification only) accepts every observation trace the model produces,
+   whatever the script of Add/Del/Get/getVhost operations; so an implementation trace the monitor
+   rejects is necessarily a correspondence mismatch, and a concrete input on which the property fails *)
+Theorem C06_model_satisfies_monitor : forall script,
+  C06_holds_router [] (mq_trace rt_empty script) = true.
+Proof. exact mq_model_satisfies_monitor. Qed.
+Print Assumptions C06_model_satisfies_monitor.
+
+(* the same for the HTTP layer: traces the model produces from any script of Register / UnRegister /
+   request begin / end (any Transport choices) pass the specification-only monitor C06_holds_http *)
+Theorem C06_model_satisfies_monitor_http : forall script, Forall hq_plain_op script ->
+  C06_holds_http [] (mq_trace_http hp_init script) = true.
+Proof. exact mq_model_satisfies_monitor_http. Qed.
+Print Assumptions C06_model_satisfies_monitor_http.
+
 (* ---------- the HTTP layer: routing decisions survive backend-connection reuse ---------- *)
 
 (* every request of every register/unregister/request history, whatever the Transport chose to
    reuse and however requests in flight overlap route changes, reaches exactly the owner of the most
    specific route registered at that moment — or gets the not-found answer and reaches no backend *)
 Theorem C06_request_reaches_current_best_match_partial : forall ops st rid cc proto host path user dialed st' out,
-  Forall hq_no_group ops -> hp_run ops = Some st ->
+  Forall hq_plain_op ops -> hp_run ops = Some st ->
   hp_step st (HBegin rid cc proto host path user dialed) = Some (st', out) ->
   out = hp_spec_out rc_owner (rt_abs (hp_routes st)) host path user.
 Proof. exact hq_request_reaches_current_best_match. Qed.
 Print Assumptions C06_request_reaches_current_best_match_partial.
 
+(* an HTTP CONNECT at the vhost HTTP port is routed the same way (empty path, Proxy-Authorization user)
+   and pools nothing *)
+Theorem C06_connect_reaches_current_best_match : forall ops st host user st' out,
+  Forall hq_plain_op ops -> hp_run ops = Some st ->
+  hp_step st (HConnect host user) = Some (st', out) ->
+  out = hp_spec_out rc_owner (rt_abs (hp_routes st)) host [] user /\ st' = st.
+Proof. exact hq_connect_reaches_current_best_match. Qed.
+Print Assumptions C06_connect_reaches_current_best_match.
+
 (* once a route has been closed and re-registered by another proxy, no new request selected by that
    triple reaches the former owner's backend: it reaches the new owner, also over reused connections *)
 Theorem C06_reregistered_route_never_reaches_old_owner :
   forall ops d l u newowner reqs st rid cc proto host path user dialed st' b r,
-  Forall hq_no_group ops -> Forall hq_is_traffic reqs ->
+  Forall hq_plain_op ops -> Forall hq_is_traffic reqs ->
   hp_run (ops ++ [HUnRegister d l u; HRegister d l u newowner] ++ reqs) = Some st ->
   hp_step st (HBegin rid cc proto host path user dialed) = Some (st', HReached b) ->
   rs_best_match (rt_abs (hp_routes st)) (rt_canon_or_empty host) path user = Some r ->
@@ -209,7 +234,7 @@ Print Assumptions C06_reregistered_route_never_reaches_old_owner.
 (* a removed route is not reached any more, even though connections to its backend may still be
    in flight or idle: the backend reached always owns a currently registered, matching route *)
 Theorem C06_unregistered_owner_not_reached : forall ops st rid cc proto host path user dialed st' b,
-  Forall hq_no_group ops -> hp_run ops = Some st ->
+  Forall hq_plain_op ops -> hp_run ops = Some st ->
   hp_step st (HBegin rid cc proto host path user dialed) = Some (st', HReached b) ->
   exists r, In r (rt_abs (hp_routes st)) /\ rs_matches r (rt_canon_or_empty host) path user = true /\
             rc_owner (rt_pay r) = b.
@@ -220,7 +245,7 @@ Print Assumptions C06_unregistered_owner_not_reached.
    no registration number and leaving the group closes no idle connection, so after the member left
    and a proxy of the same name joined again for another owner, a request reaches the FORMER owner's
    backend over the reused connection.  Witness replayed on the real code by driver `group`.
-   [hq_no_group] above excludes exactly these two operations. *)
+   [hq_plain_op] above excludes exactly these two operations. *)
 Theorem C06_group_reregistered_route_reaches_old_owner_refuted :
   exists st st',
     hp_run hq_group_witness = Some st /\
@@ -228,6 +253,23 @@ Theorem C06_group_reregistered_route_reaches_old_owner_refuted :
     hp_spec_out rc_owner (rt_abs (hp_routes st)) (hx "682e74657374") (hx "2f") [] = HReached 2.
 Proof. exact hq_group_route_reaches_former_owner. Qed.
 Print Assumptions C06_group_reregistered_route_reaches_old_owner_refuted.
+
+(* REFUTED for a request that is overtaken by a registration between its routing decision
+   (injectRequestInfoToCtx decides the pool key) and its dial (CreateConnection looks the route up
+   again): a request that had NO route when it was routed is keyed by the bare host; a route registered
+   before its dial gives it a connection to that route's backend, pooled under the bare-host key.  If
+   the route is unregistered while the request is in flight, later requests to that host -- for which no
+   route exists, the specification says "not found" -- are answered by the former owner's backend over
+   the reused connection.  Replayed on the real code by driver `window` with a gate in front of
+   DialContext.  [hq_plain_op] excludes exactly such overtaken requests (HBeginRaced). *)
+Theorem C06_unrouted_request_reaches_former_owner_refuted :
+  exists st st',
+    hp_run hq_window_witness = Some st /\
+    rt_abs (hp_routes st) = [] /\
+    hp_step st (HBegin 2 0 0 (hx "682e74657374") (hx "2f") [] false) = Some (st', HReached 1) /\
+    hp_spec_out rc_owner (rt_abs (hp_routes st)) (hx "682e74657374") (hx "2f") [] = HNotFound.
+Proof. exact hq_unrouted_request_reaches_former_owner. Qed.
+Print Assumptions C06_unrouted_request_reaches_former_owner_refuted.
 
 (* every stream of a cleartext HTTP/2 connection is routed on its own: the outcome of a request does
    not depend on the client connection or stream it arrives on *)
